@@ -80,21 +80,30 @@ def run(repo, scratch, prop=None):
         res['wall_s'] = time.time() - t0
         return res
     res['ran'] = True
-    cases = {m_.group(1): int(m_.group(2)) for m_ in re.finditer(r'LEAFCHECK leaf=(\S+) cases=(\d+)', out)}
-    fails = {}
-    for m_ in re.finditer(r"LEAFCHECK-FAIL leaf=(\S+) (.*)", out):
-        fails.setdefault(m_.group(1), m_.group(2)[:1500])
+    # per-test captured output: "---- path::__vx_leafcheck::leaf_x stdout ----" followed by the lines the test printed
+    blocks = {}
+    for m_ in re.finditer(r'^---- \S*__vx_leafcheck::(leaf_\w+) stdout ----\n(.*?)(?=^---- |^failures:|^successes:|\Z)', out, re.M | re.S):
+        blocks.setdefault(m_.group(1), '')
+        blocks[m_.group(1)] += m_.group(2)
     for m in mods:
         for t in m['tests']:
             st = status.get(t)
-            leafname = None
-            for k in list(cases) + list(fails):
-                if re.sub(r'\W', '_', k).lower().endswith(t[len('leaf_'):].lower()):
-                    leafname = k
+            blk = blocks.get(t, '')
+            mc = re.search(r'LEAFCHECK leaf=(\S+) cases=(\d+)', blk)
+            mf = re.search(r'LEAFCHECK-FAIL leaf=(\S+) (.*)', blk)
             covers = re.findall(r'fn (\w+)', ' '.join(re.findall(r'^// covers %s:(.*)' % t, m['text'], re.M)))
-            r = {'test': t, 'module': m['file'], 'covers': covers or [t[len('leaf_'):]], 'target': m['target'], 'bound': m['bound'], 'props': m['props'],
-                 'leaf': leafname or t[len('leaf_'):], 'cases': cases.get(leafname, 0),
-                 'outcome': {'ok': 'pass', 'FAILED': 'FAIL'}.get(st, 'not run'), 'detail': fails.get(leafname, '')}
+            tp = re.findall(r'\bC\d\d\b', ' '.join(re.findall(r'^// props %s:([^\n(]*)' % t, m['text'], re.M)))
+            r = {'test': t, 'module': m['file'], 'covers': covers or [t[len('leaf_'):]], 'target': m['target'], 'bound': m['bound'], 'props': sorted(set(tp)) or m['props'],
+                 'leaf': (mc.group(1) if mc else mf.group(1) if mf else t[len('leaf_'):]), 'cases': int(mc.group(2)) if mc else 0,
+                 # a FAILED test counts as a contract mismatch only if it printed its LEAFCHECK-FAIL line (failing input, got, want);
+                 # any other failure (the test itself or the leaf panicked) leaves the question open
+                 'outcome': ('pass' if st == 'ok' else 'FAIL' if (st == 'FAILED' and mf) else 'crashed' if st == 'FAILED' else 'not run'),
+                 'detail': (mf.group(2)[:1500] if mf else (blk[-600:] if st == 'FAILED' else ''))}
             res['results'].append(r)
+    if prop is not None:
+        res['results'] = [x for x in res['results'] if prop in x['props']]
+    crashed = [x['test'] for x in res['results'] if x['outcome'] in ('crashed', 'not run')]
+    if crashed and not res['undecided']:
+        res['undecided'] = 'leaf check(s) %s did not run to a verdict (panic outside the comparison)' % ', '.join(crashed)
     res['wall_s'] = time.time() - t0
     return res
